@@ -55,8 +55,9 @@ pub fn main_campaign() -> SimCampaign {
     }
 }
 
-/// Known finding R8: UNSUBSCRIBE is answered with one UNSUBACK per removed filter and with
-/// none at all when no filter was removed (unknown filter, or a filter of a resumed session)
+/// R8 (repaired in /repo): UNSUBSCRIBE was answered with one UNSUBACK per removed filter and
+/// with none at all when no filter was removed (unknown filter, or a filter of a resumed
+/// session). Kept as a focused campaign on UNSUBSCRIBE shapes.
 pub fn probe_r8() -> SimCampaign {
     let mut c = main_campaign();
     c.name = "probe_r8_unsubscribe_shapes";
@@ -64,8 +65,8 @@ pub fn probe_r8() -> SimCampaign {
     c.gen.w_burst = 0;
     c.gen.max_clients = 3;
     c.flags.avoid.unsub_shape = false;
-    c.quick = 300;
-    c.thorough = 3000;
+    c.quick = 3000;
+    c.thorough = 60000;
     c.nontrivial = |s, _| if s.acks_received > 0 { Some("unsub".into()) } else { None };
     c.probes = vec!["acks:wrong_or_out_of_order", "acks:missing_at_idle", "acks:unsolicited"];
     c
@@ -112,7 +113,7 @@ pub fn plan(_tier: Tier) -> Plan {
         rule: "Histories biased to request packets (QoS 1/2 publishes incl. bursts, PUBREL in publish order, SUBSCRIBE 1-3 filters, UNSUBSCRIBE, PINGREQ, several packets per notification) from 2-4 clients against the real router. Oracle: per client the sequence of DeviceAck notifications equals the model's owed-ack list (kind, packet id, SUBACK codes, request order) as a prefix at every drain and completely at every idle point; QoS 2 publishes enter the acceptance log (and the delivery oracle of C01) only at their release. Second campaign (acks_churn): clients 0 and 1 never send a packet out of place but disconnect, fail and resume; the others also send packets out of place; half of all packets are pipelined behind an earlier one without a notification of their own, so closing packets (DISCONNECT, violating packet) have requests queued behind them: the same ack and delivery clauses on clients 0 and 1 (an ack or forward of another connection's packet shows as unsolicited / foreign). Non-trivial: >=1 request processed while its connection was paused as busy or inflight-full and >=1 QoS 2 publish flow completed (PUBCOMP received); distinct by history hash.".into(),
         assumptions: vec![
             "QoS 2 releases are issued in publish order (as the quantifier states)".into(),
-            "Region R8 (UNSUBSCRIBE of several/unknown/resumed filters) excluded by construction; probed separately".into(),
+            "UNSUBSCRIBE of several / unknown filters is generated everywhere since R8 was repaired; persistent sessions do not UNSUBSCRIBE in the asserted clients (R17, DESIGN §0)".into(),
         ],
         min_nontrivial: 50,
     }
